@@ -229,6 +229,13 @@ def h_links(o1: int, o2: int, o3: int, u1: bool, u2: bool, k1: bool, k2: bool, k
                 else:
                     env.write(p, b"p0")
             env.write(env.p("w", "unrelated"), b"never recorded")
+            # every tracked file starts on a whole second; a later modification stays inside that second (+0.25 s per edit), as a quick
+            # edit on a real disk does
+            base = 5000.0
+            for p, kind in zip(paths, kinds):
+                for f in ([p + "/x", p + "/y"] if kind == "dir" else [p]):
+                    _set_mtime(env, f, base)
+            edits = [0]
         recorded = {}  # path -> token at recording time (oracle side: content snapshot)
 
         def snap(p):
@@ -249,9 +256,12 @@ def h_links(o1: int, o2: int, o3: int, u1: bool, u2: bool, k1: bool, k2: bool, k
             if op == 0 and exists:  # record
                 st.save_link(p, fs)
                 recorded[p] = snap(p)
-            elif op == 1 and exists:  # modify (content + mtime)
+            elif op == 1 and exists:  # modify (content + mtime, within the same whole second)
                 with NoTracing():
-                    env.write(p + "/x" if kinds[i] == "dir" else p, b"modified")
+                    target = p + "/x" if kinds[i] == "dir" else p
+                    env.write(target, b"modified")
+                    edits[0] += 1
+                    _set_mtime(env, target, base + 0.25 * min(edits[0], 3))
             elif op == 2 and exists and kinds[i] == "file":  # replace (new inode)
                 with NoTracing():
                     env.replace(p, b"replaced")
@@ -399,3 +409,13 @@ def h_force(s0: int, s1: int, s2: int, stray: bool) -> bool:
         return True
     finally:
         env.close()
+
+
+def _set_mtime(env, path, mtime):
+    if env.mode == "model":
+        i = env.inner
+        i.files[i._resolve(path)].mtime = mtime
+    else:
+        import os
+
+        os.utime(path, (mtime, mtime))
